@@ -26,6 +26,9 @@ def cases(rng, tier):
     m = 120 if tier == "quick" else 2500
     for i in range(m):
         yield rvgen.sim_case(rng, "five" if i % 2 else "single", hazard=True, opts={"aligned": True}, trace=0, run=800, dprob=1.0, iprob=0.2, suite="sim-dcache")
+    for prog, regs in rvgen.long_programs(rng, tier):          # sets filled and refilled many times
+        for mode in ("single", "five"):
+            yield rvgen.long_case(prog, regs, mode, True, dspec=rvgen.penalty_cache_spec(rng, "d"), suite="sim-dcache")
     for i in range(30 if tier == "quick" else 400):
         # loads whose destination is x0 still access (and count in) the cache, in both modes
         yield rvgen.x0_dest_case(rng, "five" if i % 2 else "single", hazard=True, trace=0, run=400, dspec=rvgen.penalty_cache_spec(rng, "d"), suite="sim-dcache")
